@@ -20,6 +20,50 @@ pub struct Case {
     pub t_eval: Vec<Place>,
     /// step budget as a fraction of the plain run's step count
     pub budget: Option<f64>,
+    /// the system has no components (y0 empty): every requested time is still reported, with empty states
+    #[serde(default)]
+    pub empty_state: bool,
+}
+
+struct NoState;
+impl Rhs for NoState {
+    fn dim(&self) -> usize {
+        0
+    }
+    fn f(&self, _t: f64, _y: &[f64], _dy: &mut [f64]) {}
+}
+
+fn check_empty(c: &Case) -> Outcome {
+    let sp = &c.base.span;
+    let te = resolve_places(&c.t_eval, &[sp.x0, sp.xend], sp);
+    let none: Vec<EvSpec> = vec![];
+    let rhs = NoState;
+    let name = c.base.method.name();
+    let mut first: Option<Solution> = None;
+    for dense in [false, true] {
+        let instr = Instr::new(&rhs, &none);
+        let o = RunOpts { method: c.base.method, rtol: Tol::S(1e-6), atol: Tol::S(1e-9), first_step: None, max_step: None, max_steps: None, t_eval: Some(te.clone()), dense };
+        let s = match solve(&instr, sp.x0, sp.xend, &[], &o) {
+            RunResult::Ok(s) => s,
+            other => return Outcome::viol(format!("{}: a system with no components and t_eval of {} times gives {}", name, te.len(), other.describe())),
+        };
+        if s.status != Status::Success {
+            return Outcome::viol(format!("{}: a system with no components ends with {}", name, status_name(s.status)));
+        }
+        if !bits_eq(&s.t, &te) {
+            return Outcome::viol(format!("{}: system with no components: reported times differ from t_eval: {} reported, {} requested (reported {:?})", name, s.t.len(), te.len(), &s.t[..s.t.len().min(4)]));
+        }
+        if s.y.len() != s.t.len() || s.y.iter().any(|r| !r.is_empty()) {
+            return Outcome::viol(format!("{}: system with no components: {} state rows for {} times, or a non-empty row", name, s.y.len(), s.t.len()));
+        }
+        if let Some(f) = &first {
+            if !bits_eq(&f.t, &s.t) {
+                return Outcome::viol(format!("{}: system with no components: samples depend on dense_output", name));
+            }
+        }
+        first = Some(s);
+    }
+    Outcome::pass(format!("{}:no-components", name), te.len() >= 2, json!({"t_eval_points": te.len()}))
 }
 
 fn run_one(c: &Case, prob: &Prob, evs: &[EvSpec], te: &[f64], dense: bool, max_steps: Option<usize>) -> Result<(Solution, Log), String> {
@@ -39,6 +83,9 @@ fn run_one(c: &Case, prob: &Prob, evs: &[EvSpec], te: &[f64], dense: bool, max_s
 }
 
 pub fn check(c: &Case) -> Outcome {
+    if c.empty_state {
+        return check_empty(c);
+    }
     let sp = &c.base.span;
     let d = sp.dir();
     let prob = Prob::new(&c.base.prob, sp.x0, sp.xend);
@@ -214,17 +261,19 @@ pub fn strategy() -> BoxedStrategy<Case> {
                 prop_oneof![3 => Just(vec![]).boxed(), 2 => recipes(n, 3, 0.6).boxed()],
                 places(24),
                 proptest::option::weighted(0.15, fr(0.1, 0.9)),
-                proptest::collection::vec(0u8..10, 4..=4),
+                proptest::collection::vec(0u8..200, 4..=4),
             )
         })
         .prop_map(|((prob, span, method, (rtol, atol), analytic_jac, max_step), mut recipes, t_eval, budget, coins)| {
+            let empty_state = coins[3] >= 197;
+            let coins: Vec<u8> = coins.iter().map(|c| c % 10).collect();
             for (q, r) in recipes.iter_mut().enumerate() {
                 if r.terminal.is_some() && coins[q % 4] < 8 {
                     r.terminal = Some(1);
                     r.dir = 0;
                 }
             }
-            Case { base: c09::Case { prob, span, method, rtol, atol, analytic_jac, max_step, recipes, first_step: None }, t_eval, budget }
+            Case { base: c09::Case { prob, span, method, rtol, atol, analytic_jac, max_step, recipes, first_step: None }, t_eval, budget, empty_state }
         })
         .boxed()
 }
